@@ -7,12 +7,12 @@
 EXTENDS PushState
 
 \* instruction-name prefix -> state field
-TypePrefix == [BOOLEAN |-> "bool", INTEGER |-> "int", FLOAT |-> "float", NAME |-> "name",
-               CODE |-> "code", EXEC |-> "exec", BOOLVECTOR |-> "bvec", INTVECTOR |-> "ivec",
-               FLOATVECTOR |-> "fvec"]
+TypePrefix == ("BOOLEAN" :> "bool") @@ ("INTEGER" :> "int") @@ ("FLOAT" :> "float") @@ ("NAME" :> "name") @@
+               ("CODE" :> "code") @@ ("EXEC" :> "exec") @@ ("BOOLVECTOR" :> "bvec") @@
+               ("INTVECTOR" :> "ivec") @@ ("FLOATVECTOR" :> "fvec")
 NineTypes == DOMAIN TypePrefix
-StackId == [BOOLEAN |-> 1, BOOLVECTOR |-> 2, CODE |-> 3, EXEC |-> 4, FLOAT |-> 5, FLOATVECTOR |-> 6,
-            INTEGER |-> 9, INTVECTOR |-> 10, NAME |-> 11]
+StackId == ("BOOLEAN" :> 1) @@ ("BOOLVECTOR" :> 2) @@ ("CODE" :> 3) @@ ("EXEC" :> 4) @@ ("FLOAT" :> 5) @@
+           ("FLOATVECTOR" :> 6) @@ ("INTEGER" :> 9) @@ ("INTVECTOR" :> 10) @@ ("NAME" :> 11)
 
 \* position maps on a top-first sequence; i is a 0-based position already clamped into the stack
 YankSeq(stk, i)    == IF i = 0 \/ stk = <<>> THEN stk ELSE <<stk[i + 1]>> \o RemoveAt(stk, i + 1)
